@@ -76,7 +76,7 @@ def linkB (F : FinZone) (r : Nsec) : Bool :=
   let n := canonKey r.next
   let deleg := decide (IsAncestorDelegation r.types)
   F.apex.isPrefixOf o && F.apex.isPrefixOf n && F.dataB o 47 && F.dataB o 46 &&
-  (if deleg then F.dataB o 2 && (r.types.contains 43 == F.dataB o 43)
+  (if deleg then F.dataB o 2 && (r.types.contains 43 == F.dataB o 43) && !F.dataB o 5
    else (r.types.all fun t => t == 46 || t == 47 || F.dataB o t) &&
         (F.recs.all fun e => e.1 != o || e.2.all fun t => t == 46 || t == 47 || r.types.contains t)) &&
   (if n == F.apex then
@@ -95,10 +95,11 @@ theorem linkB_sound (F : FinZone) (r : Nsec) (h : F.linkB r = true) : LinkOf F.v
   · by_cases hd : IsAncestorDelegation r.types
     · rw [if_pos hd]
       rw [if_pos (by simpa using hd)] at h5
-      simp only [Bool.and_eq_true, beq_iff_eq] at h5
-      refine ⟨(data_iff _ _ _).2 h5.1, ?_⟩
-      rw [data_iff, ← h5.2]
-      simp
+      simp only [Bool.and_eq_true, beq_iff_eq, Bool.not_eq_eq_eq_not, Bool.not_true] at h5
+      refine ⟨(data_iff _ _ _).2 h5.1.1, ?_, ?_⟩
+      · rw [data_iff, ← h5.1.2]
+        simp
+      · rw [data_iff, h5.2]; simp
     · rw [if_neg hd]
       rw [if_neg (by simpa using hd)] at h5
       simp only [Bool.and_eq_true, List.all_eq_true, Bool.or_eq_true, beq_iff_eq, bne_iff_ne,
@@ -195,8 +196,9 @@ def refuteB (F : FinZone) (q : Name) (qtype rcode : Nat) (answers : List Ans) : 
   if rcode = 3 then
     F.existsB k || (prefixes k).any fun c => F.closestEncloserB c k && F.existsB (c ++ [Spec.STAR])
   else if rcode = 0 ∧ answers = [] then
-    F.dataB k qtype || (!F.existsB k &&
-      (prefixes k).any fun c => F.closestEncloserB c k && F.dataB (c ++ [Spec.STAR]) qtype)
+    F.dataB k qtype || F.dataB k 5 || (!F.existsB k &&
+      (prefixes k).any fun c => F.closestEncloserB c k &&
+        (F.dataB (c ++ [Spec.STAR]) qtype || F.dataB (c ++ [Spec.STAR]) 5))
   else if rcode = 0 then
     answers.any fun a => a.secure && match a.rrsigLabels with
       | some l => canonKey a.name == k && decide (l < rfcLabels k) &&
@@ -222,11 +224,15 @@ theorem refuteB_sound (F : FinZone) (q : Name) (qtype rcode : Nat) (answers : Li
       rintro ⟨hn, hw⟩
       simp only [Bool.or_eq_true, List.any_eq_true, Bool.and_eq_true, Bool.not_eq_eq_eq_not,
         Bool.not_true] at h
-      rcases h with h | ⟨hne, c, _, hc, hs⟩
-      · exact hn ((data_iff _ _ _).2 h)
+      rcases h with (h | h) | ⟨hne, c, _, hc, hs⟩
+      · exact hn.1 ((data_iff _ _ _).2 h)
+      · exact hn.2 ((data_iff _ _ _).2 h)
       · have hne' : ¬ F.view.Exists (canonKey q) := by
           rw [exists_iff, hne]; simp
-        exact hw hne' c (closestEncloserB_sound F c _ hc) ((data_iff _ _ _).2 hs)
+        have := hw hne' c (closestEncloserB_sound F c _ hc)
+        rcases hs with hs | hs
+        · exact this.1 ((data_iff _ _ _).2 hs)
+        · exact this.2 ((data_iff _ _ _).2 hs)
     · rw [if_neg h0] at h ⊢
       by_cases h00 : rcode = 0
       · rw [if_pos h00] at h ⊢
